@@ -133,11 +133,11 @@ int main(int argc, char **argv) {
 	unsigned di = 0;
 	for(auto &s : sc) {
 		std::string mode = std::string("dfs:") + s.name;
-		if(!want_mode(mode.c_str()) || (di++ % opt.nshards) != opt.shard) continue;
+		if(!want_mode(mode.c_str()) || (opt.mode.empty() && (di++ % opt.nshards) != opt.shard)) continue;
 		sched::Dfs dfs(t ? 4 : 3);
 		long long i = 0; bool complete = false; uint64_t cap = t ? 1000000 : 60000;
 		do {
-			if(want_case(i)) run_world(mode.c_str(), i, s.writer, s.readers, dfs, s.prefill);
+			run_world(mode.c_str(), i, s.writer, s.readers, dfs, s.prefill);
 			i++;
 			if(!rec.violations.empty()) break;
 			if(!dfs.advance()) { complete = true; break; }
